@@ -101,6 +101,7 @@ type TableSpec struct {
 	Properties []string
 	Line       int
 	File       string
+	Len        int // required number of cells of a 1-D table (-1: not checked)
 }
 
 type ContractSet struct {
@@ -115,6 +116,7 @@ type ContractSet struct {
 	Overlay   map[string][]byte
 	SpecDecls map[string]*specFunc // "pkg.name" -> decl (after load)
 	GInvs     []*GlobalInv
+	Axioms    []*GlobalInv // trusted facts about external (library) functions
 	KFs       []KnownFinding
 	KFClauses map[int]*Clause       // index into KFs -> region clause
 	ClassDefs map[string]string      // "pkg.class" -> predicate text
@@ -160,10 +162,18 @@ func allocated[T any](p *T) bool                       { return true }
 func funcIs(f interface{}, name string) bool           { return true }
 func inClass(f interface{}, class string) bool         { return true }
 func nothingModified() bool                            { return true }
+func ext[T any](name string, idx int, args ...interface{}) T { var z T; return z }
+func allBytes(b []byte, lo int, f func(c byte) bool) bool { for i := lo; i < len(b); i++ { if !f(b[i]) { return false } }; return true }
+func rangeBytes(b []byte, lo, hi int, f func(c byte) bool) bool { for i := lo; i < hi; i++ { if !f(b[i]) { return false } }; return true }
+func rangeChars(s string, lo, hi int, f func(c byte) bool) bool { for i := lo; i < hi; i++ { if !f(s[i]) { return false } }; return true }
+func allChars(s string, lo int, f func(c byte) bool) bool { for i := lo; i < len(s); i++ { if !f(s[i]) { return false } }; return true }
+
+// rangeindex names the hidden index of the enclosing for-range-over-slice loop in loop clauses
+var rangeindex int
 `
 
 var preludeNames = []string{"old", "forall", "exists", "forallp", "forallstr", "forallint", "imp", "ite", "addFits", "subFits", "mulFits", "isNaN", "isInf", "sameFloat", "fresh",
-	"typeIs", "streq", "exactDiv", "floorDiv", "popcount", "fabs", "ffloor", "fceil", "fround", "ftrunc", "reachable", "unchanged", "allocated", "funcIs", "inClass", "nothingModified"}
+	"typeIs", "streq", "exactDiv", "floorDiv", "popcount", "fabs", "ffloor", "fceil", "fround", "ftrunc", "reachable", "unchanged", "allocated", "funcIs", "inClass", "nothingModified", "rangeindex", "allBytes", "allChars", "rangeBytes", "rangeChars", "ext"}
 
 func pkgDirOf(short string) string { return filepath.Join(repoDir, "pkg", short) }
 
@@ -315,6 +325,13 @@ func (cs *ContractSet) parseFile(file string) error {
 			lm.Clause = mk("lemma", strings.TrimSpace(rest[i+1:]))
 			cs.Lemmas = append(cs.Lemmas, lm)
 			cur = nil
+		case "axiom":
+			i := strings.Index(rest, ":")
+			if i < 0 {
+				return fmt.Errorf("%s:%d: bad axiom", file, ln+1)
+			}
+			cs.Axioms = append(cs.Axioms, &GlobalInv{Name: strings.TrimSpace(rest[:i]), Pkg: pkg, Clause: mk("axiom", strings.TrimSpace(rest[i+1:]))})
+			cur = nil
 		case "ginv":
 			i := strings.Index(rest, ":")
 			if i < 0 {
@@ -328,10 +345,14 @@ func (cs *ContractSet) parseFile(file string) error {
 			}
 		case "table":
 			fs := strings.Fields(rest)
-			if len(fs) != 2 {
+			if len(fs) != 2 && len(fs) != 3 {
 				return fmt.Errorf("%s:%d: bad table clause", file, ln+1)
 			}
-			cs.Tables = append(cs.Tables, &TableSpec{Global: fs[0], SpecFn: fs[1], Pkg: pkg, Properties: curProps, Line: ln + 1, File: file})
+			tb := &TableSpec{Global: fs[0], SpecFn: fs[1], Pkg: pkg, Properties: curProps, Line: ln + 1, File: file, Len: -1}
+			if len(fs) == 3 {
+				fmt.Sscanf(fs[2], "%d", &tb.Len)
+			}
+			cs.Tables = append(cs.Tables, tb)
 		default:
 			return fmt.Errorf("%s:%d: unknown contract keyword %q", file, ln+1, word)
 		}
@@ -581,6 +602,9 @@ func (cs *ContractSet) buildOverlay() error {
 	for _, gi := range cs.GInvs {
 		pkgs[gi.Pkg] = true
 	}
+	for _, gi := range cs.Axioms {
+		pkgs[gi.Pkg] = true
+	}
 	for pkg := range pkgs {
 		dir := pkgDirOf(pkg)
 		parsed, err := parser.ParseDir(fset, dir, func(fi os.FileInfo) bool {
@@ -714,7 +738,7 @@ func (cs *ContractSet) buildOverlay() error {
 				}
 			}
 		}
-		for _, gi := range cs.GInvs {
+		for _, gi := range append(append([]*GlobalInv{}, cs.GInvs...), cs.Axioms...) {
 			if gi.Pkg != pkg {
 				continue
 			}
@@ -740,6 +764,7 @@ func (cs *ContractSet) buildOverlay() error {
 		}
 		// header with only the imports the synthesized text mentions
 		body := b.String()
+		bodyNoStr := regexp.MustCompile("\"[^\"\n]*\"").ReplaceAllString(body, "\"\"")
 		var hb strings.Builder
 		fmt.Fprintf(&hb, "package %s\n\nimport (\n", pkgName)
 		seenName := map[string]bool{}
@@ -756,7 +781,7 @@ func (cs *ContractSet) buildOverlay() error {
 				name = name[:i]
 			}
 			name = strings.TrimPrefix(name, "go-")
-			if seenName[name] || !regexp.MustCompile(`\b`+regexp.QuoteMeta(name)+`\.[A-Za-z_]`).MatchString(body) {
+			if seenName[name] || !regexp.MustCompile(`\b`+regexp.QuoteMeta(name)+`\.[A-Za-z_]`).MatchString(bodyNoStr) {
 				continue
 			}
 			seenName[name] = true
@@ -807,7 +832,7 @@ func (cs *ContractSet) resolve(l *Loaded) []string {
 							cl.Expr, cl.Info = ret, p.TypesInfo
 						}
 					}
-					for _, gi := range cs.GInvs {
+					for _, gi := range append(append([]*GlobalInv{}, cs.GInvs...), cs.Axioms...) {
 						if gi.Pkg == short && gi.Clause.Name == fd.Name.Name {
 							gi.Clause.Expr, gi.Clause.Info = ret, p.TypesInfo
 						}
